@@ -52,6 +52,7 @@ structure Post {α} (p : Except PyErr α × DrvState) (s : DrvState) (r : Except
   wf : p.2.Wf
   rid : p.2.d.rid = s.d.rid
   frame : ∀ j, j ≠ s.d.rid → p.2.cfgAt j = s.cfgAt j
+  len : p.2.w.radios.length = s.w.radios.length
 
 theorem Post.inv {α} {p : Except PyErr α × DrvState} {s r c' p0'} (h : Post p s r c' p0') (hc : CfgOk c')
     (hp : P0Ok p0') : Inv p.2 := ⟨h.wf, h.cfg ▸ h.cached, h.cfg ▸ hc, h.p0 ▸ hp⟩
@@ -59,18 +60,18 @@ theorem Post.inv {α} {p : Except PyErr α × DrvState} {s r c' p0'} (h : Post p
 /-! ### states reached by the primitives -/
 
 /-- state after a CE edge -/
-def DrvState.ceStep (s : DrvState) (v : Bool) : DrvState := { s with w := s.w.setCE s.d.rid v }
+def DrvState.ceStep3 (s : DrvState) (v : Bool) : DrvState := { s with w := s.w.setCE s.d.rid v }
 /-- state after `time.sleep` -/
-def DrvState.sleepStep (s : DrvState) (n : Nat) : DrvState := { s with w := s.w.sleep n }
+def DrvState.sleepStep3 (s : DrvState) (n : Nat) : DrvState := { s with w := s.w.sleep n }
 /-- the data byte a register read returns -/
 def DrvState.readVal (s : DrvState) (reg : Nat) : Nat := (s.w.spi s.d.rid [reg, 0]).2.getD 1 0
 /-- the data bytes a multi-byte read returns -/
 def DrvState.readBytes (s : DrvState) (reg n : Nat) : Bytes := (s.w.spi s.d.rid (reg :: zeros n)).2.drop 1
 /-- the STATUS byte cached after a transaction -/
-def DrvState.stAfter (s : DrvState) (out : Bytes) : Nat := (s.w.spi s.d.rid out).2.headD s.d.status
+def DrvState.stAfter3 (s : DrvState) (out : Bytes) : Nat := (s.w.spi s.d.rid out).2.headD s.d.status
 
-theorem exec_setCE' (v : Bool) (s : DrvState) : exec (setCE v) s = (.ok (), s.ceStep v) := rfl
-theorem exec_sleepNs' (n : Nat) (s : DrvState) : exec (sleepNs n) s = (.ok (), s.sleepStep n) := rfl
+theorem exec_setCE3' (v : Bool) (s : DrvState) : exec (setCE v) s = (.ok (), s.ceStep3 v) := rfl
+theorem exec_sleepNs3' (n : Nat) (s : DrvState) : exec (sleepNs n) s = (.ok (), s.sleepStep3 n) := rfl
 
 theorem exec_regRead' (reg : Nat) (s : DrvState) :
     exec (regRead reg) s = (.ok (s.readVal reg), s.spiStep [reg, 0]) := exec_regRead reg s
@@ -82,44 +83,44 @@ theorem exec_regReadBytes' (reg n : Nat) (s : DrvState) :
   rfl
 
 /-- `_reg_write(reg, n)` for a shadow value in byte range -/
-theorem exec_regWrite_nat (reg n : Nat) (s : DrvState) (hn : n < 256) (hr : reg ≠ 0x50) :
+theorem exec_regWrite_nat3 (reg n : Nat) (s : DrvState) (hn : n < 256) (hr : reg ≠ 0x50) :
     exec (regWrite reg (n : Int)) s = (.ok (), s.spiStep [0x20 ||| reg, n]) := by
   rw [exec_regWrite reg n s (by omega) hr, Int.toNat_natCast]
 
 /-! #### shadows -/
 
-@[simp] theorem spiStep_d' (s : DrvState) (out : Bytes) :
-    (s.spiStep out).d = { s.d with status := s.stAfter out } := rfl
-@[simp] theorem ceStep_d (s : DrvState) (v : Bool) : (s.ceStep v).d = s.d := rfl
-@[simp] theorem sleepStep_d (s : DrvState) (n : Nat) : (s.sleepStep n).d = s.d := rfl
+@[simp] theorem spiStep_d3' (s : DrvState) (out : Bytes) :
+    (s.spiStep out).d = { s.d with status := s.stAfter3 out } := rfl
+@[simp] theorem ceStep_d3 (s : DrvState) (v : Bool) : (s.ceStep3 v).d = s.d := rfl
+@[simp] theorem sleepStep_d3 (s : DrvState) (n : Nat) : (s.sleepStep3 n).d = s.d := rfl
 
 /-! #### well-formedness -/
 
-@[simp] theorem ceStep_wf (s : DrvState) (v : Bool) : (s.ceStep v).Wf ↔ s.Wf := by
-  unfold DrvState.Wf DrvState.ceStep
+@[simp] theorem ceStep_wf3 (s : DrvState) (v : Bool) : (s.ceStep3 v).Wf ↔ s.Wf := by
+  unfold DrvState.Wf DrvState.ceStep3
   simp only [World.setCE_length]
 
-@[simp] theorem sleepStep_wf (s : DrvState) (n : Nat) : (s.sleepStep n).Wf ↔ s.Wf := Iff.rfl
+@[simp] theorem sleepStep_wf3 (s : DrvState) (n : Nat) : (s.sleepStep3 n).Wf ↔ s.Wf := Iff.rfl
 
 /-! #### configuration part -/
 
-theorem cfg_cfgOf (s : DrvState) : s.cfg.cfgOf = s.cfg := rfl
+theorem cfg_cfgOf3 (s : DrvState) : s.cfg.cfgOf = s.cfg := rfl
 
-theorem ceStep_cfg (s : DrvState) (v : Bool) (hw : s.Wf) : (s.ceStep v).cfg = { s.cfg with ce := v } := by
-  unfold DrvState.cfg DrvState.ceStep
+theorem ceStep_cfg3 (s : DrvState) (v : Bool) (hw : s.Wf) : (s.ceStep3 v).cfg = { s.cfg with ce := v } := by
+  unfold DrvState.cfg DrvState.ceStep3
   simp only
   rw [World.setCE_cfgOf _ _ _ hw]
   simp
 
-theorem ceStep_cfgAt (s : DrvState) (v : Bool) (hw : s.Wf) (j : Nat) (hj : j ≠ s.d.rid) :
-    (s.ceStep v).cfgAt j = s.cfgAt j := by
-  unfold DrvState.cfgAt DrvState.ceStep
+theorem ceStep_cfgAt3 (s : DrvState) (v : Bool) (hw : s.Wf) (j : Nat) (hj : j ≠ s.d.rid) :
+    (s.ceStep3 v).cfgAt j = s.cfgAt j := by
+  unfold DrvState.cfgAt DrvState.ceStep3
   simp only
   rw [World.setCE_cfgOf _ _ _ hw]
   simp [hj]
 
-@[simp] theorem sleepStep_cfg (s : DrvState) (n : Nat) : (s.sleepStep n).cfg = s.cfg := rfl
-@[simp] theorem sleepStep_cfgAt (s : DrvState) (n j : Nat) : (s.sleepStep n).cfgAt j = s.cfgAt j := rfl
+@[simp] theorem sleepStep_cfg3 (s : DrvState) (n : Nat) : (s.sleepStep3 n).cfg = s.cfg := rfl
+@[simp] theorem sleepStep_cfgAt3 (s : DrvState) (n j : Nat) : (s.sleepStep3 n).cfgAt j = s.cfgAt j := rfl
 
 /-- reading a register changes no configuration register -/
 theorem spiStep_read_cfg (s : DrvState) (reg : Nat) (d : Bytes) (hw : s.Wf) (hr : reg < 0x20) :
@@ -215,8 +216,8 @@ inductive Steps (s : DrvState) : DrvState → Prop
   | refl : Steps s s
   | spi {t : DrvState} (out : Bytes) : Steps s t → Steps s (t.spiStep out)
   | mod {t : DrvState} (f : Rf24 → Rf24) : (f t.d).rid = t.d.rid → Steps s t → Steps s (t.modShadow f)
-  | ce {t : DrvState} (v : Bool) : Steps s t → Steps s (t.ceStep v)
-  | sleep {t : DrvState} (n : Nat) : Steps s t → Steps s (t.sleepStep n)
+  | ce {t : DrvState} (v : Bool) : Steps s t → Steps s (t.ceStep3 v)
+  | sleep {t : DrvState} (n : Nat) : Steps s t → Steps s (t.sleepStep3 n)
 
 theorem Steps.frame {s t : DrvState} (h : Steps s t) (hw : s.Wf) :
     t.Wf ∧ t.d.rid = s.d.rid ∧ ∀ j, j ≠ s.d.rid → t.cfgAt j = s.cfgAt j := by
@@ -231,11 +232,20 @@ theorem Steps.frame {s t : DrvState} (h : Steps s t) (hw : s.Wf) :
     exact ⟨(modShadow_wf _ _ hf).2 h1, hf.trans h2, fun j hj => by rw [modShadow_cfgAt]; exact h3 j hj⟩
   | ce v _ ih =>
     obtain ⟨h1, h2, h3⟩ := ih
-    refine ⟨(ceStep_wf _ _).2 h1, h2, fun j hj => ?_⟩
-    rw [ceStep_cfgAt _ _ h1 j (by rw [h2]; exact hj)]; exact h3 j hj
+    refine ⟨(ceStep_wf3 _ _).2 h1, h2, fun j hj => ?_⟩
+    rw [ceStep_cfgAt3 _ _ h1 j (by rw [h2]; exact hj)]; exact h3 j hj
   | sleep n _ ih =>
     obtain ⟨h1, h2, h3⟩ := ih
     exact ⟨h1, h2, fun j hj => h3 j hj⟩
+
+/-- primitive steps keep the number of radios of the world -/
+theorem Steps.length {s t : DrvState} (h : Steps s t) : t.w.radios.length = s.w.radios.length := by
+  induction h with
+  | refl => rfl
+  | spi out _ ih => rw [← ih]; exact World.spi_length _ _ _
+  | mod f _ _ ih => exact ih
+  | ce v _ ih => rw [← ih]; exact World.setCE_length _ _ _
+  | sleep n _ ih => exact ih
 
 theorem Steps.trans {s t u : DrvState} (h1 : Steps s t) (h2 : Steps t u) : Steps s u := by
   induction h2 with
@@ -262,7 +272,7 @@ theorem Post.of_steps {α} {s t : DrvState} {r : Except PyErr α} {c' : Radio} {
     (hst : Steps s t) (hw : s.Wf) (hcfg : t.cfg = c') (hp0 : t.d.pipe0ReadAddr = p0')
     (hc : Cached t.d c') : Post (r, t) s r c' p0' :=
   have h := hst.frame hw
-  ⟨rfl, hcfg, hp0, hc, h.1, h.2.1, h.2.2⟩
+  ⟨rfl, hcfg, hp0, hc, h.1, h.2.1, h.2.2, hst.length⟩
 
 /-- a rejected call that did nothing (or only refreshed the cached STATUS byte / re-read values
     already cached) -/
@@ -275,12 +285,12 @@ theorem Post.unchanged {α} {s t : DrvState} {e : Except PyErr α} (h : Inv s) (
 theorem Post.trans {α β} {p : Except PyErr α × DrvState} {q : Except PyErr β × DrvState} {s : DrvState}
     {r1 c1 p1 r2 c2 p2} (h1 : Post p s r1 c1 p1) (h2 : Post q p.2 r2 c2 p2) : Post q s r2 c2 p2 :=
   ⟨h2.res, h2.cfg, h2.p0, h2.cached, h2.wf, h2.rid.trans h1.rid,
-   fun j hj => (h2.frame j (by rw [h1.rid]; exact hj)).trans (h1.frame j hj)⟩
+   fun j hj => (h2.frame j (by rw [h1.rid]; exact hj)).trans (h1.frame j hj), h2.len.trans h1.len⟩
 
 /-- mapping the result -/
 theorem Post.map {α β} {p : Except PyErr α × DrvState} {s : DrvState} {a : α} {c1 p1} (g : α → β)
     (h : Post p s (.ok a) c1 p1) : Post ((.ok (g a) : Except PyErr β), p.2) s (.ok (g a)) c1 p1 :=
-  ⟨rfl, h.cfg, h.p0, h.cached, h.wf, h.rid, h.frame⟩
+  ⟨rfl, h.cfg, h.p0, h.cached, h.wf, h.rid, h.frame, h.len⟩
 
 end Nrf
 
@@ -322,14 +332,14 @@ theorem write_tail {s t : DrvState} (h : Inv s) (hst : Steps s t) (hcfg : t.cfg 
   rw [spiStep_write_cfg _ _ _ (hst.frame h.wf).1 hr, hcfg, hwr]
 
 theorem Post.ite_sleep {α} {s t : DrvState} {r : Except PyErr α} {c' p0'} (c : Prop) [Decidable c] (n : Nat)
-    (h : Post (r, t) s r c' p0') : Post (if c then (r, t.sleepStep n) else (r, t)) s r c' p0' := by
+    (h : Post (r, t) s r c' p0') : Post (if c then (r, t.sleepStep3 n) else (r, t)) s r c' p0' := by
   split
-  · exact ⟨rfl, h.cfg, h.p0, h.cached, h.wf, h.rid, h.frame⟩
+  · exact ⟨rfl, h.cfg, h.p0, h.cached, h.wf, h.rid, h.frame, h.len⟩
   · exact h
 
 theorem Post.sleep {α} {s t : DrvState} {r : Except PyErr α} {c' p0'} (n : Nat) (h : Post (r, t) s r c' p0') :
-    Post (r, t.sleepStep n) s r c' p0' :=
-  ⟨rfl, h.cfg, h.p0, h.cached, h.wf, h.rid, h.frame⟩
+    Post (r, t.sleepStep3 n) s r c' p0' :=
+  ⟨rfl, h.cfg, h.p0, h.cached, h.wf, h.rid, h.frame, h.len⟩
 
 @[simp] theorem ite_pair_same {α β} (c : Prop) [Decidable c] (a b : α) (t : β) :
     (if c then (a, t) else (b, t)) = (if c then a else b, t) := by split <;> rfl
@@ -341,41 +351,41 @@ open Rf24 Cfg
 
 /-! ### the configuration part reached by a nest of primitive steps, computed step by step -/
 
-structure Reach (s t : DrvState) (c : Radio) : Prop where
+structure Reach3 (s t : DrvState) (c : Radio) : Prop where
   steps : Steps s t
   cfg : t.cfg = c
 
-theorem Reach.refl (s : DrvState) : Reach s s s.cfg := ⟨.refl, rfl⟩
+theorem Reach3.refl (s : DrvState) : Reach3 s s s.cfg := ⟨.refl, rfl⟩
 
-theorem Reach.write {s t : DrvState} {c : Radio} (hw : s.Wf) (reg v : Nat) (hr : reg < 0x20) (h : Reach s t c) :
-    Reach s (t.spiStep [0x20 ||| reg, v]) (c.writeReg reg [v]).cfgOf :=
+theorem Reach3.write {s t : DrvState} {c : Radio} (hw : s.Wf) (reg v : Nat) (hr : reg < 0x20) (h : Reach3 s t c) :
+    Reach3 s (t.spiStep [0x20 ||| reg, v]) (c.writeReg reg [v]).cfgOf :=
   ⟨.spi _ h.steps, by rw [spiStep_write_cfg _ _ _ (h.steps.frame hw).1 hr, h.cfg]⟩
 
-theorem Reach.writes {s t : DrvState} {c : Radio} (hw : s.Wf) (reg : Nat) (b : Bytes) (hr : reg < 0x20)
-    (hb : b ≠ []) (h : Reach s t c) :
-    Reach s (t.spiStep ((0x20 ||| reg) :: b)) (c.writeReg reg b).cfgOf :=
+theorem Reach3.writes {s t : DrvState} {c : Radio} (hw : s.Wf) (reg : Nat) (b : Bytes) (hr : reg < 0x20)
+    (hb : b ≠ []) (h : Reach3 s t c) :
+    Reach3 s (t.spiStep ((0x20 ||| reg) :: b)) (c.writeReg reg b).cfgOf :=
   ⟨.spi _ h.steps, by rw [spiStep_writes_cfg _ _ _ (h.steps.frame hw).1 hr hb, h.cfg]⟩
 
-theorem Reach.read {s t : DrvState} {c : Radio} (hw : s.Wf) (reg : Nat) (d : Bytes) (hr : reg < 0x20)
-    (h : Reach s t c) : Reach s (t.spiStep (reg :: d)) c :=
+theorem Reach3.read {s t : DrvState} {c : Radio} (hw : s.Wf) (reg : Nat) (d : Bytes) (hr : reg < 0x20)
+    (h : Reach3 s t c) : Reach3 s (t.spiStep (reg :: d)) c :=
   ⟨.spi _ h.steps, by rw [spiStep_read_cfg _ _ _ (h.steps.frame hw).1 hr, h.cfg]⟩
 
-theorem Reach.cmd {s t : DrvState} {c : Radio} (hw : s.Wf) (k : Nat) (hk : k = 0xE1 ∨ k = 0xE2 ∨ k = 0xFF)
-    (h : Reach s t c) : Reach s (t.spiStep [k]) c :=
+theorem Reach3.cmd {s t : DrvState} {c : Radio} (hw : s.Wf) (k : Nat) (hk : k = 0xE1 ∨ k = 0xE2 ∨ k = 0xFF)
+    (h : Reach3 s t c) : Reach3 s (t.spiStep [k]) c :=
   ⟨.spi _ h.steps, by rw [spiStep_cmd_cfg _ _ (h.steps.frame hw).1 hk, h.cfg]⟩
 
-theorem Reach.mod {s t : DrvState} {c : Radio} (f : Rf24 → Rf24) (hf : (f t.d).rid = t.d.rid)
-    (h : Reach s t c) : Reach s (t.modShadow f) c :=
+theorem Reach3.mod {s t : DrvState} {c : Radio} (f : Rf24 → Rf24) (hf : (f t.d).rid = t.d.rid)
+    (h : Reach3 s t c) : Reach3 s (t.modShadow f) c :=
   ⟨.mod f hf h.steps, by rw [modShadow_cfg _ _ hf, h.cfg]⟩
 
-theorem Reach.ce {s t : DrvState} {c : Radio} (hw : s.Wf) (v : Bool) (h : Reach s t c) :
-    Reach s (t.ceStep v) { c with ce := v } :=
-  ⟨.ce v h.steps, by rw [ceStep_cfg _ _ (h.steps.frame hw).1, h.cfg]⟩
+theorem Reach3.ce {s t : DrvState} {c : Radio} (hw : s.Wf) (v : Bool) (h : Reach3 s t c) :
+    Reach3 s (t.ceStep3 v) { c with ce := v } :=
+  ⟨.ce v h.steps, by rw [ceStep_cfg3 _ _ (h.steps.frame hw).1, h.cfg]⟩
 
-theorem Reach.sleep {s t : DrvState} {c : Radio} (n : Nat) (h : Reach s t c) : Reach s (t.sleepStep n) c :=
+theorem Reach3.sleep {s t : DrvState} {c : Radio} (n : Nat) (h : Reach3 s t c) : Reach3 s (t.sleepStep3 n) c :=
   ⟨.sleep n h.steps, h.cfg⟩
 
-theorem Reach.trans {s t u : DrvState} {c c' : Radio} (h1 : Reach s t c) (h2 : Reach t u c') : Reach s u c' :=
+theorem Reach3.trans {s t u : DrvState} {c c' : Radio} (h1 : Reach3 s t c) (h2 : Reach3 t u c') : Reach3 s u c' :=
   ⟨h1.steps.trans h2.steps, h2.cfg⟩
 
 /-- ACTIVATE (command byte 0x50) is ignored by a plus variant -/
@@ -389,26 +399,26 @@ theorem spiStep_activate_cfg (s : DrvState) (v : Nat) (hw : s.Wf) (hplus : s.cfg
   rw [hX]
   rfl
 
-theorem Reach.activate {s t : DrvState} {c : Radio} (hw : s.Wf) (v : Nat) (hplus : c.plus = true)
-    (h : Reach s t c) : Reach s (t.spiStep [0x50, v]) c :=
+theorem Reach3.activate {s t : DrvState} {c : Radio} (hw : s.Wf) (v : Nat) (hplus : c.plus = true)
+    (h : Reach3 s t c) : Reach3 s (t.spiStep [0x50, v]) c :=
   ⟨.spi _ h.steps, by rw [spiStep_activate_cfg _ _ (h.steps.frame hw).1 (h.cfg ▸ hplus), h.cfg]⟩
 
-/-- computes `Reach s t ?c` for a nest `t` of primitive steps over `s`, given `hw : s.Wf` -/
+/-- computes `Reach3 s t ?c` for a nest `t` of primitive steps over `s`, given `hw : s.Wf` -/
 macro "reach" hw:term : tactic =>
   `(tactic| repeat (first
-      | with_reducible exact Reach.refl _
-      | (with_reducible apply Reach.write $hw; case hr => decide)
-      | (with_reducible apply Reach.writes $hw; (case hr => decide); (case hb => assumption))
-      | (with_reducible apply Reach.read $hw; case hr => decide)
-      | (with_reducible apply Reach.cmd $hw; case hk => decide)
-      | (with_reducible apply Reach.activate $hw; case hplus => assumption)
-      | with_reducible apply Reach.ce $hw
-      | with_reducible apply Reach.sleep
-      | (with_reducible apply Reach.mod; case hf => exact rfl)))
+      | with_reducible exact Reach3.refl _
+      | (with_reducible apply Reach3.write $hw; case hr => decide)
+      | (with_reducible apply Reach3.writes $hw; (case hr => decide); (case hb => assumption))
+      | (with_reducible apply Reach3.read $hw; case hr => decide)
+      | (with_reducible apply Reach3.cmd $hw; case hk => decide)
+      | (with_reducible apply Reach3.activate $hw; case hplus => assumption)
+      | with_reducible apply Reach3.ce $hw
+      | with_reducible apply Reach3.sleep
+      | (with_reducible apply Reach3.mod; case hf => exact rfl)))
 
-/-- `Post` from a computed `Reach` -/
+/-- `Post` from a computed `Reach3` -/
 theorem Post.of_reach {α} {s t : DrvState} {r : Except PyErr α} {c c' : Radio} {p0' : Option Bytes}
-    (hr : Reach s t c) (hw : s.Wf) (hc : c = c') (hp0 : t.d.pipe0ReadAddr = p0')
+    (hr : Reach3 s t c) (hw : s.Wf) (hc : c = c') (hp0 : t.d.pipe0ReadAddr = p0')
     (hd : Cached t.d c') : Post (r, t) s r c' p0' :=
   Post.of_steps hr.steps hw (hr.cfg.trans hc) hp0 hd
 
@@ -431,7 +441,7 @@ theorem readVal_after_read (t : DrvState) (r : Nat) (d : Bytes) (reg : Nat) (hw 
   rw [readVal_eq _ _ hreg hc, readVal_eq _ _ hreg hc, spiStep_read_cfg _ _ _ hw hr]
 
 /-- `Wf` through a shadow update, side condition in simplifier-friendly form -/
-theorem modShadow_wf' (t : DrvState) (f : Rf24 → Rf24) (hf : ∀ d, (f d).rid = d.rid) :
+theorem modShadow_wf3' (t : DrvState) (f : Rf24 → Rf24) (hf : ∀ d, (f d).rid = d.rid) :
     (t.modShadow f).Wf ↔ t.Wf := modShadow_wf t f (hf _)
 
 theorem modShadow_cfg' (t : DrvState) (f : Rf24 → Rf24) (hf : ∀ d, (f d).rid = d.rid) :
@@ -468,18 +478,18 @@ theorem readVal_after_addr_write (t : DrvState) (reg : Nat) (b : Bytes) (hw : t.
 
 /-- all the cases of the exec rules used by the symbolic execution of leaf methods -/
 macro "exec_simp" "[" ls:Lean.Parser.Tactic.simpLemma,* "]" : tactic =>
-  `(tactic| simp only [exec_bind, exec_pure, exec_modD', exec_getD, exec_regRead', exec_setCE', exec_sleepNs',
-      exec_nowNs, exec_raise, exec_ite, modShadow_d, spiStep_d', ceStep_d, sleepStep_d, ↓reduceIte, ne_eq, not_true_eq_false, not_false_eq_true,
-      false_and, and_false, true_and, and_true, false_or, or_false, true_or, or_true, Classical.not_not, and_self, implies_true, modShadow_wf', spiStep_wf, ceStep_wf, sleepStep_wf, Nat.reduceEqDiff, Nat.reduceLT, readVal_modShadow, readVal_after_read,
+  `(tactic| simp only [exec_bind, exec_pure, exec_modD', exec_getD, exec_regRead', exec_setCE3', exec_sleepNs3',
+      exec_nowNs, exec_raise, exec_ite, modShadow_d, spiStep_d3', ceStep_d3, sleepStep_d3, ↓reduceIte, ne_eq, not_true_eq_false, not_false_eq_true,
+      false_and, and_false, true_and, and_true, false_or, or_false, true_or, or_true, Classical.not_not, and_self, implies_true, modShadow_wf3', spiStep_wf, ceStep_wf3, sleepStep_wf3, Nat.reduceEqDiff, Nat.reduceLT, readVal_modShadow, readVal_after_read,
       CONFIGURE, AUTO_ACK, OPEN_PIPES, SETUP_RETR, RF_PA_RATE, RX_ADDR_P0, TX_ADDRESS, RX_PL_LENG,
       DYN_PL_LEN, TX_FEATURE, $ls,*])
 
 
 /-- the same with deeper nesting of side-condition discharging (reads through long nests of states) -/
 macro "exec_simp_deep" "[" ls:Lean.Parser.Tactic.simpLemma,* "]" : tactic =>
-  `(tactic| simp (maxDischargeDepth := 8) only [exec_bind, exec_pure, exec_modD', exec_getD, exec_regRead', exec_setCE', exec_sleepNs',
-      exec_nowNs, exec_raise, exec_ite, modShadow_d, spiStep_d', ceStep_d, sleepStep_d, ↓reduceIte, ne_eq, not_true_eq_false, not_false_eq_true,
-      false_and, and_false, true_and, and_true, false_or, or_false, true_or, or_true, Classical.not_not, and_self, implies_true, modShadow_wf', spiStep_wf, ceStep_wf, sleepStep_wf, Nat.reduceEqDiff, Nat.reduceLT, readVal_modShadow, readVal_after_read,
+  `(tactic| simp (maxDischargeDepth := 8) only [exec_bind, exec_pure, exec_modD', exec_getD, exec_regRead', exec_setCE3', exec_sleepNs3',
+      exec_nowNs, exec_raise, exec_ite, modShadow_d, spiStep_d3', ceStep_d3, sleepStep_d3, ↓reduceIte, ne_eq, not_true_eq_false, not_false_eq_true,
+      false_and, and_false, true_and, and_true, false_or, or_false, true_or, or_true, Classical.not_not, and_self, implies_true, modShadow_wf3', spiStep_wf, ceStep_wf3, sleepStep_wf3, Nat.reduceEqDiff, Nat.reduceLT, readVal_modShadow, readVal_after_read,
       CONFIGURE, AUTO_ACK, OPEN_PIPES, SETUP_RETR, RF_PA_RATE, RX_ADDR_P0, TX_ADDRESS, RX_PL_LENG,
       DYN_PL_LEN, TX_FEATURE, $ls,*])
 
@@ -522,6 +532,6 @@ theorem Post.bind_err {α β} {x : DrvM α} {f : α → DrvM β} {s : DrvState} 
   rw [hx] at h1 hres
   simp only at hres
   subst hres
-  exact ⟨rfl, h1.cfg, h1.p0, h1.cached, h1.wf, h1.rid, h1.frame⟩
+  exact ⟨rfl, h1.cfg, h1.p0, h1.cached, h1.wf, h1.rid, h1.frame, h1.len⟩
 
 end Nrf
